@@ -2867,12 +2867,17 @@ func (lv *leafValue) lastUpdateBetween(hLog appendable.Appendable, initialTs, fi
 	hOff := lv.hOff
 	skippedUpdates := uint64(0)
 
-	for i := uint64(0); i < lv.hCount; i++ {
+	// hCount is the number of versions stored in the history log and a chunk may hold several of them:
+	// the chain must not be followed beyond the last version of this key
+	for skippedUpdates < lv.hCount {
 		r := appendable.NewReaderFrom(hLog, hOff, DefaultMaxNodeSize)
 
 		hc, err := r.ReadUint32()
 		if err != nil {
 			return nil, 0, 0, err
+		}
+		if hc == 0 {
+			return nil, 0, 0, ErrCorruptedFile
 		}
 
 		for j := 0; j < int(hc); j++ {
